@@ -44,6 +44,7 @@ pub enum Op {
     CloneFrom { dst: u8, src: u8 },
     RoundTrip { w: u8, enc: Enc, mode: RtMode },
     ResSet { w: u8, which: u8, p: u32 },
+    ResView { w: u8, rv: u16, path: u8, salt: Option<u32> },
     Eq { a: u8, b: u8 },
     Debug { w: u8 },
     DropWorld { w: u8 },
@@ -69,6 +70,7 @@ impl Op {
             Op::CloneFrom { .. } => "CloneFrom",
             Op::RoundTrip { .. } => "RoundTrip",
             Op::ResSet { .. } => "ResSet",
+            Op::ResView { .. } => "ResView",
             Op::Eq { .. } => "Eq",
             Op::Debug { .. } => "Debug",
             Op::DropWorld { .. } => "DropWorld",
@@ -98,6 +100,7 @@ pub struct Profile {
     pub clone_from: u32,
     pub round_trip: u32,
     pub res_set: u32,
+    pub res_view: u32,
     pub eq: u32,
     pub debug: u32,
     pub drop_world: u32,
@@ -131,6 +134,7 @@ impl Profile {
             clone_from: 2,
             round_trip: 3,
             res_set: 1,
+            res_view: 1,
             eq: 1,
             debug: 1,
             drop_world: 1,
@@ -212,7 +216,8 @@ impl Profile {
                 p.query = 2;
             }
             "C15" => {
-                p.res_set = 10;
+                p.res_view = 16;
+                p.res_set = 6;
                 p.round_trip = 4;
                 p.clone_to = 4;
                 p.clone_from = 4;
@@ -316,6 +321,7 @@ pub fn op_strategy(p: &Profile) -> BoxedStrategy<Op> {
             .boxed(),
     ));
     v.push((p.res_set, (world_sel(b), 0u8..4, any::<u32>()).prop_map(|(w, which, p)| Op::ResSet { w, which, p }).boxed()));
+    v.push((p.res_view, (world_sel(b), any::<u16>(), 0u8..3, prop::option::weighted(0.7, any::<u32>())).prop_map(|(w, rv, path, salt)| Op::ResView { w, rv, path, salt }).boxed()));
     v.push((p.eq, (0u8..3, 0u8..3).prop_map(|(a, b)| Op::Eq { a, b }).boxed()));
     v.push((p.debug, world_sel(b).prop_map(|w| Op::Debug { w }).boxed()));
     v.push((p.drop_world, (1u8..3).prop_map(|w| Op::DropWorld { w }).boxed()));
